@@ -201,7 +201,8 @@ class Comm:
             table = {}
             for c in sorted(groups, key=repr):
                 lst = sorted(groups[c])
-                sh = _Shared(s.world, '%s.%s%d%r' % (s.id, sig[0].lower(), s.nderived, c), [s.members[r] for _, r in lst])
+                sh = _Shared(s.world, '%s.%s%d#%s' % (s.id, sig[0].lower(), s.nderived, repr(c).replace(' ', '').replace('.', '_')),
+                             [s.members[r] for _, r in lst])
                 for newrank, (_, r) in enumerate(lst):
                     table[r] = (sh, newrank)
             s.nderived += 1
@@ -373,6 +374,12 @@ class _WorldObj:
         elif self.mode == 'random':
             self.rng.shuffle(idx)
         return idx
+
+
+def family(comm_id):
+    """communicator family of an instance id: the id without the colour parts ("W.cart0.sub1#(0,)" -> "W.cart0.sub1")"""
+    import re
+    return re.sub(r'#[^.]*', '', comm_id)
 
 
 def _resolve(c):
